@@ -85,12 +85,18 @@ let run_script (toks : string list) : string =
                        else "none")
                   end
               | 'c' ->
-                  (* next() polled once and dropped if it does not complete at once: a call that would stay pending changes nothing *)
-                  let before = !st in
-                  apply (StreamNext (nat_of_int o));
+                  (* next() polled once and dropped if it does not complete at once. Behind EntriesOnly one poll runs the adapter's loop over
+                     everything that has already arrived: references and intermediate messages are taken (and stay taken), an entry
+                     completes the call; otherwise the call is pending and is given up: DropCall - no call is in progress any more *)
+                  let rec poll guard =
+                    let before = getop o in
+                    apply (StreamNext (nat_of_int o));
+                    let after = getop o in
+                    if after.o_call <> None && int_of_nat after.o_taken > int_of_nat before.o_taken && guard > 0 then poll (guard - 1) in
+                  poll 100000;
                   let c' = getop o in
                   i.cmds <- List.tl i.cmds;
-                  if c'.o_call <> None then st := before
+                  if c'.o_call <> None then apply (DropCall (nat_of_int o))
                   else
                     i.lastres <-
                       (if List.length c'.o_got > List.length c.o_got then Printf.sprintf "item:%d" (int_of_nat (List.nth c'.o_got (List.length c'.o_got - 1)).r_tok)
